@@ -707,7 +707,7 @@ func (m *Miner) Build(parent *Node, o BlockOpts) (b *Block, ok bool) {
 var C05Violations = []string{"high-hash", "bits-wrong", "bits-negative", "bits-zero", "bits-overflow", "time-mtp", "time-future", "version-old",
 	"cb-script-short", "cb-script-long", "bad-cb-height", "second-coinbase", "no-coinbase", "non-final-height", "non-final-time",
 	"merkle-dup", "bad-merkle", "witness-commit-wrong", "witness-missing-commit", "witness-nonce-size", "short-block", "empty-vout", "null-prevout",
-	"witness-commit-two", "weight-over", "txcount-huge", "version-old", "forged-parent"}
+	"witness-commit-two", "weight-over", "txcount-huge", "version-old", "forged-parent", "witness-superfluous", "witness-superfluous"}
 
 // C05Boundary are mutations that keep the block VALID while sitting on a limit (MutateC05 kinds starting with "ok-").
 var C05Boundary = []string{"ok-witness-commit-two", "ok-weight-exact"}
@@ -1018,6 +1018,60 @@ func (m *Miner) MutateC05(parent *Node, b *Block, kind string, now int64) bool {
 		}
 		cb.Touch()
 		regrind()
+	case "witness-superfluous":
+		// a transaction without witness data travels in the marker/flag form with an empty stack per input
+		// ("superfluous witness record": not a valid serialization). In half of the cases the commitment is taken
+		// over the hash of those bytes instead of the transaction's txid.
+		if !segwit || !hasCommit() {
+			return false
+		}
+		at := -1
+		for i := 1; i < len(b.Txs); i++ {
+			if !b.Txs[i].HasWitness() {
+				at = i
+			}
+		}
+		if at < 0 {
+			return false
+		}
+		t := b.Txs[at]
+		plain := t.Bytes(false)
+		ext := append([]byte{}, plain[:4]...)
+		ext = append(ext, 0, 1)
+		ext = append(ext, plain[4:len(plain)-4]...)
+		ext = append(ext, make([]byte, len(t.In))...)
+		ext = append(ext, plain[len(plain)-4:]...)
+		if m.R.Chance(0.5) {
+			cb := b.Txs[0]
+			ids := make([][32]byte, len(b.Txs))
+			for i, x := range b.Txs {
+				if i == at {
+					ids[i] = Sha256d(ext)
+				} else if i > 0 {
+					ids[i] = x.WID()
+				}
+			}
+			wr, _ := MerkleRoot(ids)
+			c := Sha256d(append(append([]byte{}, wr[:]...), cb.In[0].Wit[0]...))
+			for i := range cb.Out {
+				if len(cb.Out[i].Pk) >= 38 && bytes.Equal(cb.Out[i].Pk[:6], commitHdr) {
+					cb.Out[i].Pk = append(append([]byte{}, commitHdr...), c[:]...)
+				}
+			}
+			cb.Touch()
+			regrind()
+		}
+		var w bytes.Buffer
+		w.Write(b.H.Bytes())
+		PutVarInt(&w, uint64(len(b.Txs)))
+		for i, x := range b.Txs {
+			if i == at {
+				w.Write(ext)
+			} else {
+				w.Write(x.Bytes(true))
+			}
+		}
+		b.RawOverride, b.RawClause = w.Bytes(), "superfluous-witness-record"
 	case "short-block":
 		b.RawOverride = b.H.Bytes()
 	case "forged-parent":
